@@ -1606,6 +1606,8 @@ public:
                     case '/':
                         state_ = pop_state();
                         break;
+                    case '*':
+                        break; // still a candidate for the closing "*/"
                     default:    
                         state_ = parse_state::slash_star;
                         break;
